@@ -361,6 +361,97 @@ def body_stage(case):
     return labels
 
 
+# ---- options that must not influence results: plotting and storing -------------------------------------
+
+PLOTS = {
+    "geometry": ["geom_beta_tr_hist"],
+    "spectra": ["spectra_histogram"],
+    "taus": ["taus_density_beta", "taus_histogram", "taus_pexit", "taus_overview"],
+    "optical": ["eas_optical_density", "eas_optical_histogram"],
+}
+
+
+def _entry(kind, case, n):
+    """(callable(plot, store) -> tuple of result arrays) for a decorated stage entry point."""
+    import dask
+
+    if kind == "geometry":
+        from nuspacesim.simulation.geometry.region_geometry import RegionGeom
+
+        u = np.stack(GeomThrow().inputs(case, n))
+        return lambda plot, store: RegionGeom(gc.make_config(case["cfg"]))(u.copy(), plot=plot, store=store)
+    if kind == "spectra":
+        from .c12 import _spectra
+
+        (u,) = Spectrum().inputs(case, n)
+
+        def f(plot, store):
+            with scripted(u, raw=True):
+                x, norm, w = _spectra(case["spectrum"])(len(u), plot=plot, store=store)
+            return (x,)
+
+        return f
+    if kind == "taus":
+        from .c04 import _taus
+
+        beta, log_e = TausCall().inputs(case, n)
+
+        def f(plot, store):
+            with scripted(np.full(2 * n + 8, case["c"])):
+                return tuple(_taus(case["version"])(beta.copy(), log_e.copy(), plot=plot, store=store))
+
+        return f
+    if kind == "optical":
+        from .c08 import _eas
+
+        arrs = Optical().inputs(case, min(n, 12))
+
+        def f(plot, store):
+            with dask.config.set(scheduler="synchronous"):
+                return tuple(_eas(case["det"], 2.5, 0.2, 10.0)(*[a.copy() for a in arrs], cloudf=None, plot=plot, store=store))
+
+        return f
+    raise ValueError(kind)
+
+
+def body_options(case):
+    import matplotlib
+
+    matplotlib.use("Agg")
+    from matplotlib import pyplot as plt
+
+    kind = case["kind"]
+    n = case["n"]
+    f = _entry(kind, case, n)
+    with quiet():
+        with cut(f"{kind} stage without options"):
+            base = [np.asarray(o).copy() for o in f(None, None)]
+    labels = {kind}
+    names = PLOTS[kind]
+    opts = [names[case["pick"] % len(names)], list(names), [names[(case["pick"] + 1) % len(names)]]]
+    for plot in opts[: case["nopts"]]:
+        stored = {}
+
+        def store(cols, vals, *a, **k):
+            for c_, v_ in zip(cols, vals):
+                stored[c_] = np.asarray(v_).copy()
+
+        try:
+            with quiet():
+                with cut(f"{kind} stage with plot={plot!r}"):
+                    got = f(plot, store)
+        finally:
+            plt.close("all")
+        got = [np.asarray(o) for o in got]
+        for j, (g, b) in enumerate(zip(got, base)):
+            require(g.shape == b.shape and _bytes([g]) == _bytes([b]), f"{kind}: requesting the plot {plot!r} changes result #{j} handed back to the caller (e.g. {np.asarray(g).ravel()[:2].tolist()} instead of {b.ravel()[:2].tolist()})")
+        require(len(stored) == len(base), f"{kind}: {len(stored)} columns stored for {len(base)} results")
+        for (cname, col), b in zip(stored.items(), base):
+            require(_bytes([col]) == _bytes([b]), f"{kind}: stored column {cname!r} differs from the result returned without options")
+        labels.add("plot_list" if isinstance(plot, list) else "plot_name")
+    return labels
+
+
 rows3 = st.lists(
     st.tuples(
         st.one_of(st.floats(6.0, 12.0), st.sampled_from([6.0, 12.0, 9.0, 8.75])),
@@ -429,6 +520,29 @@ SUBCHECKS = [
         lambda labels: "non_identity_permutation" in labels and "interior_split" in labels,
         {"quick": 36, "thorough": 1000},
         doc="EAS.__call__ incl. the Cherenkov kernel: permutation, split, repeated calls, inputs untouched",
+        shrink=False,
+    ),
+    SubCheck(
+        "options",
+        st.fixed_dictionaries(
+            {
+                "kind": st.sampled_from(["taus", "spectra", "geometry", "optical", "taus"]),
+                "n": st.sampled_from([40, 64, 25]),
+                "pick": st.integers(0, 7),
+                "nopts": st.sampled_from([2, 3, 1]),
+                "rows3": rows3,
+                "rows4": gc.points(4, 12),
+                "cfg": gc.geom_config(),
+                "version": st.sampled_from(["3", "1", "2"]),
+                "spectrum": st.sampled_from([{"id": "monospectrum", "log_nu_energy": 9.25}, {"id": "powerspectrum", "index": 2.0, "lower_bound": 6.0, "upper_bound": 12.0}]),
+                "det": st.sampled_from([525.0, 33.0]),
+                "c": st.floats(0.01, 0.99),
+            }
+        ),
+        body_options,
+        lambda labels: "plot_name" in labels,
+        {"quick": 16, "thorough": 400},
+        doc="results handed back to the caller and stored columns are identical with and without plotting options (every registered plot of the stage, by name and as a list)",
         shrink=False,
     ),
 ]
